@@ -218,10 +218,138 @@ def err_text(e: BaseException) -> str:
     return 'ERR:OTHER:' + type(e).__name__
 
 
-def xq(expr: str, root=None, **variables):
+# ---- token reuse ---------------------------------------------------------------------------------
+# Every expression text is compiled ONCE (elementpath.Selector) and that token tree is evaluated for all
+# inputs of the run; each evaluation is also done with a freshly parsed expression (elementpath.select) and
+# the two outcomes are compared.  The functions of this property are pure, so a history of evaluations of
+# one token must equal the list of single evaluations (Lean: serialize_parse_history); a token that keeps
+# state between evaluations (cached parser object, cached result, mutated operand) shows up here as a
+# disagreement carrying the two-step history that reproduces it.
+_SELECTORS: dict[str, Any] = {}
+_HISTORY: dict[str, list] = {}
+REUSE_DIFFS: list[dict] = []
+REUSE = {'on': True, 'evaluations': 0, 'tokens': 0}
+
+
+def canon_result(r: Any) -> Any:
     c = ep()
-    return c['elementpath'].select(c['root'] if root is None else root, expr, parser=c['Parser'],
-                                   variables=variables)
+    if isinstance(r, list):
+        return [canon_result(x) for x in r]
+    if isinstance(r, (c['XPathMap'], c['XPathArray'])):
+        return enc(from_xdm(r))
+    if isinstance(r, bool) or r is None or isinstance(r, (int, str)):
+        return r if not isinstance(r, str) else 's:' + r
+    if isinstance(r, float):
+        return 'nan' if r != r else ('inf' if r in (float('inf'), float('-inf')) else enc_float(r))
+    inner = getattr(r, 'value', None)
+    if inner is not None and (hasattr(inner, 'tag') or hasattr(inner, 'getroot')):
+        r = inner                                 # XPath node wrapper -> the ElementTree / lxml object
+    if hasattr(r, 'getroot'):
+        top = r.getroot()
+        return ['doc', canon_xml(top) if top is not None and hasattr(top, 'tag') else repr(top)]
+    if hasattr(r, 'tag'):
+        return ['elem', canon_xml(r)]
+    if hasattr(r, 'children'):
+        return ['docnode*', [canon_result(x) for x in r.children]]
+    return 'obj:' + (str(r) if isinstance(r, Decimal) else type(r).__name__ + ':' + str(r))
+
+
+def outcome(fn) -> tuple[bool, Any]:
+    try:
+        return True, fn()
+    except Exception as e:                       # whatever the implementation raises is its behaviour
+        return False, e
+
+
+def canon_outcome(o) -> str:
+    ok, r = o
+    if not ok:
+        return err_text(r)
+    try:
+        return json.dumps(canon_result(r), ensure_ascii=True, default=str)
+    except Exception as e:
+        return 'uncanon:' + type(e).__name__
+
+
+def describe_input(root, item, variables) -> dict:
+    d: dict[str, Any] = {}
+    if root is not None and root is not ep()['root']:
+        d['root'] = canon_xml(root) if hasattr(root, 'tag') else repr(root)
+    if item is not None:
+        d['item'] = canon_result(item)
+    if variables:
+        d['variables'] = {k: canon_result(v) for k, v in variables.items()}
+    return d
+
+
+def replay_reuse(expr: str, steps: list[tuple]) -> tuple[list[str], list[str]]:
+    """evaluate `steps` (root, item, variables) through ONE new Selector and, separately, each with a fresh select()"""
+    c = ep()
+    sel = c['elementpath'].Selector(expr, parser=c['Parser'])
+    reused, fresh = [], []
+    for root, item, variables in steps:
+        kw = {'variables': variables} if variables else {}
+        if item is not None:
+            kw['item'] = item
+        reused.append(canon_outcome(outcome(lambda: sel.select(root, **kw))))
+        fresh.append(canon_outcome(outcome(lambda: c['elementpath'].select(root, expr, parser=c['Parser'], **kw))))
+    return reused, fresh
+
+
+def xq(expr: str, root=None, _item=None, _reuse=True, **variables):
+    c = ep()
+    rt = c['root'] if root is None else root
+    kw: dict[str, Any] = {'variables': variables} if variables else {}
+    if _item is not None:
+        kw['item'] = _item
+    if not (REUSE['on'] and _reuse):
+        return c['elementpath'].select(rt, expr, parser=c['Parser'], **kw)
+    sel = _SELECTORS.get(expr)
+    if sel is None:
+        sel = _SELECTORS[expr] = c['elementpath'].Selector(expr, parser=c['Parser'])
+        _HISTORY[expr] = []
+        REUSE['tokens'] += 1
+    REUSE['evaluations'] += 1
+    o_reused = outcome(lambda: sel.select(rt, **kw))
+    o_fresh = outcome(lambda: c['elementpath'].select(rt, expr, parser=c['Parser'], **kw))
+    hist = _HISTORY[expr]
+    step = (rt, _item, dict(variables))
+    a, b = canon_outcome(o_reused), canon_outcome(o_fresh)
+    if a != b and len(REUSE_DIFFS) < 40:
+        REUSE_DIFFS.append({'expr': expr, 'steps': list(hist[-3:]) + [step], 'n': len(hist) + 1, 'reused': a, 'fresh': b})
+    hist.append(step)
+    if len(hist) > 4:
+        del hist[0]
+    if not o_reused[0]:
+        raise o_reused[1]
+    return o_reused[1]
+
+
+def reuse_disagreements() -> list[Disagreement]:
+    """turn the recorded reused-vs-fresh differences into disagreements with a minimal replayable history"""
+    out = []
+    for d in REUSE_DIFFS:
+        steps = d['steps']
+        best = None
+        for cand in ([steps[-2:]] if len(steps) >= 2 else []) + [[steps[-1], steps[-1]], steps]:
+            try:
+                reused, fresh = replay_reuse(d['expr'], cand)
+            except Exception:
+                continue
+            if reused != fresh:
+                best = (cand, reused, fresh)
+                break
+        if best is None:
+            cand, reused, fresh = steps, ['(after %d evaluations) ' % d['n'] + d['reused']], [d['fresh']]
+        else:
+            cand, reused, fresh = best
+        case = {'kind': 'REUSE', 'expr': d['expr'], 'evaluation_no': d['n'],
+                'history': [describe_input(*s) for s in cand]}
+        out.append(Disagreement(case, impl=json.dumps(reused), model=json.dumps(fresh), spec=json.dumps(fresh),
+                                what='one token evaluated repeatedly vs freshly parsed expression',
+                                site='token state kept between evaluations: ' + d['expr'][:60]))
+    del REUSE_DIFFS[:]
+    return out
 
 
 def xq_item(expr: str, **variables):
@@ -618,7 +746,7 @@ def impl_serialize(v: Any, as_literal: bool):
     """-> (text | ERR, parse-json canonical | ERR, deep-equal result)"""
     try:
         if as_literal:
-            text = xq('serialize(%s, map{"method":"json"})' % xpath_literal(v))
+            text = xq('serialize(%s, map{"method":"json"})' % xpath_literal(v), _reuse=False)
         else:
             text = xq('serialize($v, map{"method":"json"})', v=to_xdm(v))
     except Exception as e:
@@ -632,7 +760,7 @@ def impl_serialize(v: Any, as_literal: bool):
     try:
         if as_literal:
             lit = xpath_literal(v)
-            deq = xq('deep-equal(parse-json(serialize(%s, map{"method":"json"})), %s)' % (lit, lit))
+            deq = xq('deep-equal(parse-json(serialize(%s, map{"method":"json"})), %s)' % (lit, lit), _reuse=False)
         else:
             x = to_xdm(v)
             deq = xq('deep-equal(parse-json(serialize($v, map{"method":"json"})), $v)', v=x)
@@ -914,6 +1042,124 @@ def check_xml(run: Run, case) -> list[Disagreement]:
     return out
 
 
+# one token, several evaluations inside ONE expression ---------------------------------------------------
+MULTI_EXPR = {
+    # sub-kind: (for-expression, single expression, variable, every item must be True?)
+    'xml-seq': ('for $e in $es return deep-equal(parse-xml(serialize($e))/*, $e)',
+                'deep-equal(parse-xml(serialize($e))/*, $e)', 'e', True),
+    'xml-inner': ('for $e in //* return deep-equal(parse-xml(serialize($e))/*, $e)',
+                  'deep-equal(parse-xml(serialize(.))/*, .)', None, False),   # inner elements: tail is not serialized
+    'xml-docs': ('for $s in $ss return parse-xml($s)', 'parse-xml($s)', 's', False),
+    'fragment': ('for $s in $ss return parse-xml-fragment($s)', 'parse-xml-fragment($s)', 's', False),
+    'json': ('for $s in $ss return map{"r": parse-json($s)}', 'map{"r": parse-json($s)}', 's', False),
+    'j2x': ('for $s in $ss return xml-to-json(json-to-xml($s))', 'xml-to-json(json-to-xml($s))', 's', False),
+    'j2xdoc': ('for $s in $ss return json-to-xml($s)', 'json-to-xml($s)', 's', False),
+    'ser': ('for $s in $ss return serialize($s, map{"method":"json"})', 'serialize($s, map{"method":"json"})', 's', False),
+}
+FRAGMENTS = ['<a/>x<b/>', 'text only', '<c>1</c>', '<!--c--><d/>', '<e x="1"/><e/>tail', '<?p q?><f>g</f>', '']
+
+
+def gen_multi(rng) -> dict:
+    sub = rng.choice(list(MULTI_EXPR))
+    lib = rng.choice(['etree', 'lxml'])
+    k = rng.choice([2, 2, 3, 5])
+    c: dict[str, Any] = {'kind': 'MULTI', 'sub': sub, 'lib': lib}
+    if sub == 'xml-seq' or sub == 'xml-docs':
+        c['_items'] = [gen_xml(rng, lib, rng.choice([0, 1, 2])) for _ in range(k)]
+    elif sub == 'xml-inner':
+        while True:
+            root = gen_xml(rng, lib, rng.choice([1, 2, 3]))
+            if sum(1 for e in root.iter() if isinstance(e.tag, str)) >= 2:
+                break
+        c['_root'] = root
+    elif sub == 'fragment':
+        c['_items'] = [rng.choice(FRAGMENTS) for _ in range(k)]
+    elif sub in ('json', 'j2x', 'j2xdoc'):
+        c['_items'] = [write_json(rng, gen_value(rng, rng.choice([0, 1, 2]), ['null', 'bool', 'int', 'float', 'str', 'str']),
+                                  loose=rng.random() < 0.5) for _ in range(k)]
+    else:
+        vals = []
+        while len(vals) < k:
+            v = gen_value(rng, rng.choice([0, 1, 2]), ['bool', 'int', 'float', 'str', 'str'])
+            if v is not None:
+                vals.append(v)
+        c['_items'] = vals
+    return c
+
+
+def flat(x) -> list:
+    return list(x) if isinstance(x, list) else [x]
+
+
+def run_multi(sub: str, lib: str, items: list, root=None) -> tuple[str, str, int]:
+    """(for-expression outcome, list of single outcomes, number of items) as canonical JSON"""
+    c = ep()
+    for_expr, single_expr, var, _ = MULTI_EXPR[sub]
+    sel = c['elementpath'].select
+    if sub == 'xml-inner':
+        elems = [e for e in root.iter() if isinstance(e.tag, str)]
+        multi = outcome(lambda: xq(for_expr, root=root))
+        singles = [outcome(lambda e=e: flat(sel(root, single_expr, parser=c['Parser'], item=e))) for e in elems]
+        n = len(elems)
+    else:
+        if sub == 'xml-docs':
+            vals = [sel(e, 'serialize(.)', parser=c['Parser']) for e in items]
+        elif sub == 'ser':
+            vals = [to_xdm(v) for v in items]
+        else:
+            vals = list(items)
+        ctx_root = items[0] if sub == 'xml-seq' else (c['root'] if lib == 'etree' else _lxml_root())
+        seqvar = 'es' if sub == 'xml-seq' else 'ss'
+        multi = outcome(lambda: xq(for_expr, root=ctx_root, **{seqvar: vals}))
+        singles = [outcome(lambda v=v: flat(sel(ctx_root, single_expr, parser=c['Parser'], variables={var: v}))) for v in vals]
+        n = len(vals)
+    if all(ok for ok, _ in singles):
+        want = json.dumps([canon_result(x) for _, r in singles for x in r], ensure_ascii=True, default=str)
+    else:
+        want = next(err_text(r) for ok, r in singles if not ok)         # the first error is the result
+    got = canon_outcome((multi[0], flat(multi[1]) if multi[0] else multi[1]))
+    return got, want, n
+
+
+def _lxml_root():
+    if 'lxml_root' not in _ctx:
+        import lxml.etree as LE
+        _ctx['lxml_root'] = LE.XML('<r/>')
+    return _ctx['lxml_root']
+
+
+def check_multi(run: Run, case) -> list[Disagreement]:
+    sub, lib = case['sub'], case['lib']
+    items, root = case.get('_items'), case.get('_root')
+    got, want, n = run_multi(sub, lib, items, root)
+    run.stats.count('multi:%s:%s' % (sub, lib))
+    run.stats.count('multi:evaluations-inside-one-expression', n)
+    out = []
+    cj = {'kind': 'MULTI', 'sub': sub, 'lib': lib, 'expr': MULTI_EXPR[sub][0]}
+    if got != want:
+        # smallest history: a pair of items that already differs
+        shown = items
+        if items is not None:
+            for i in range(len(items)):
+                for j in range(i + 1, len(items)):
+                    g2, w2, _ = run_multi(sub, lib, [items[i], items[j]])
+                    if g2 != w2:
+                        shown, got, want = [items[i], items[j]], g2, w2
+                        break
+                else:
+                    continue
+                break
+        cj['items'] = [canon_result(to_xdm(x) if sub == 'ser' else x) for x in shown] if shown is not None else canon_xml(root)
+        out.append(Disagreement(cj, got, want, spec=want, what='for-expression over several items vs single evaluations',
+                                site=MULTI_EXPR[sub][1]))
+    elif MULTI_EXPR[sub][3] and want != json.dumps([True] * n):
+        cj['items'] = [canon_xml(x) for x in items]
+        out.append(Disagreement(cj, got, None, spec=json.dumps([True] * n),
+                                what='deep-equal(parse-xml(serialize($e)), $e) over a sequence of nodes', site='fn:serialize / fn:parse-xml'))
+    return out
+
+
+
 # =========================================================================== batch evaluation
 def driver_line(case) -> str | None:
     k = case['kind']
@@ -980,6 +1226,10 @@ def evaluate(run: Run, cases: list[dict]) -> list[list[Disagreement]]:
             results[i] = check_x2j(run, c, a)
         elif k == 'XML':
             results[i] = check_xml(run, c)
+        elif k == 'MULTI':
+            results[i] = check_multi(run, c)
+    if results:
+        results[0] = reuse_disagreements() + results[0]      # the replayable histories first
     return results
 
 
@@ -1027,7 +1277,7 @@ CORPUS: list[dict] = [
 def gen_cases(run: Run) -> list[dict]:
     rng = run.rng
     cases: list[dict] = []
-    n = run.scale(4, 40)
+    n = run.scale(3, 30)
     for _ in range(900 * n):
         cases.append({'kind': 'ESC', 's': gen_string(rng, allow_nonxml=rng.random() < 0.3, p_special=0.4),
                       'escaped': rng.random() < 0.1})
@@ -1059,6 +1309,9 @@ def gen_cases(run: Run) -> list[dict]:
     for _ in range(250 * n):
         lib = rng.choice(['etree', 'lxml'])
         cases.append({'kind': 'XML', 'lib': lib, '_root': gen_xml(rng, lib, rng.choice([0, 1, 2, 3]))})
+    for _ in range(120 * n):
+        cases.append(gen_multi(rng))
+    rng.shuffle(cases)          # interleave the families: a reused token sees different kinds of inputs in turn
     return cases
 
 
@@ -1068,8 +1321,8 @@ def correspond(run: Run, cases: list[dict]) -> None:
         chunk = cases[i:i + 1500]
         for c, ds in zip(chunk, evaluate(run, chunk)):
             cj = case_json(c)
-            nontrivial = bool(c.get('s') or c.get('t') or c.get('elem') or c.get('v') is not None or c['kind'] == 'XML')
-            st.case(cj if c['kind'] != 'XML' else {'kind': 'XML', 'n': st.evaluations}, nontrivial=nontrivial)
+            nontrivial = bool(c.get('s') or c.get('t') or c.get('elem') or c.get('v') is not None or c['kind'] in ('XML', 'MULTI'))
+            st.case(cj if c['kind'] not in ('XML', 'MULTI') else {'kind': c['kind'], 'n': st.evaluations}, nontrivial=nontrivial)
             st.count('kind:' + c['kind'])
             if c['kind'] == 'SER':
                 v = c['v']
@@ -1167,7 +1420,9 @@ def smaller_values(v: Any):
 
 def shrink(d: Disagreement) -> Disagreement:
     case = getattr(d, '_case', None)
-    if case is None or case['kind'] == 'XML' or case['kind'] == 'X2J':
+    if isinstance(d.case, dict) and d.case.get('kind') in ('REUSE', 'MULTI'):
+        return d                      # already a minimal replayed history
+    if case is None or case['kind'] in ('XML', 'X2J', 'MULTI', 'REUSE'):
         return d
     sub = Run(PROP, 'quick', 0)
     best, bestd = case, d
@@ -1220,6 +1475,8 @@ def body(run: Run) -> int:
         correspond(run, [dict(c) for c in CORPUS] + gen_cases(run))
     except DriverError as e:
         run.broken.append('driver:C17 ' + str(e)[:300])
+    run.stats.extra['token_reuse'] = {'tokens': REUSE['tokens'], 'evaluations_through_reused_tokens': REUSE['evaluations'],
+                                      'each_compared_with': 'a freshly parsed expression (elementpath.select)'}
     return run.finish('proof', shrink=shrink, search=search)
 
 
